@@ -17,6 +17,13 @@ def run_cache_traces(step_files, wd):
             for ci, call in enumerate(c["calls"]):
                 if "dups0" in call and call.get("outcome") == "ok" and "steps" in call:
                     steps = [{k: v for k, v in s.items() if k != "set"} for s in call["steps"]]
+                    for s in steps:
+                        if s["e"] == "miss":
+                            # does the key denote a quantifier node (then the next `open` is its own)?
+                            s["quant"] = s["key"].startswith(("(!{", "(3{", "(V{"))
+                    for e in call["dups0"]:
+                        # what the key contains about its (at most one) variable: "closed", "" (unrestricted) or the domain label
+                        e["kdom"] = "closed" if e["doms"] == "" else e["doms"].split(":", 1)[1]
                     traces.append({"id": "%s.%d" % (c["id"], ci), "dups0": call["dups0"], "steps": steps,
                                    "formulas": call.get("formulas")})
     if not traces:
